@@ -233,7 +233,17 @@ structure Ctx where
   nextFail : Nat
 deriving Repr, DecidableEq, Inhabited
 
-/-- `SubscriptionsInner<N>` + the live report contexts + the ghost log -/
+/-- `PersistedSubscription` (the raw subscribe request it also carries is ignored by the table) -/
+structure Rec where
+  fab : Nat
+  peer : Nat
+  minInt : Nat
+  maxInt : Nat
+deriving Repr, DecidableEq, Inhabited
+
+/-- `SubscriptionsInner<N>` + the live report contexts + the persisted records (`kv`, one per slot
+`PERSISTENT_SUBSCRIPTIONS_START + i`, they survive a restart) + ghosts: the log of recorded changes
+and the boot counter `epoch` (subscription ids are only meaningful within one boot) -/
 structure State where
   hz : Nat
   n : Nat
@@ -245,11 +255,13 @@ structure State where
   cancelled : Bool
   ctxs : List Ctx
   log : List (Nat × Entry)
+  kv : List Rec := []
+  epoch : Nat := 0
 deriving Repr, Inhabited
 
 def State.new (hz n : Nat) : State :=
   { hz := hz, n := n, nextSubId := 1, count := 0, subs := [], changed := Changed.new,
-    reporting := none, cancelled := false, ctxs := [], log := [] }
+    reporting := none, cancelled := false, ctxs := [], log := [], kv := [], epoch := 0 }
 
 /-- `notify_attr_changed` / `notify_cluster_changed` / `notify_endpoint_changed` /
 `notify_all_changed`: `p` carries the sentinels on the wildcard axes -/
@@ -385,6 +397,35 @@ def State.nextReportAt (s : State) (evwm : Nat) : Nat :=
   | some m => m
   | none => IMAX
 
+/-! ## Persisted subscriptions (`persistent-subscriptions`) -/
+
+def Sub.toRec (x : Sub) : Rec := { fab := x.fab, peer := x.peer, minInt := x.minInt, maxInt := x.maxInt }
+
+/-- `persist_all`: one record per subscription **of the table** (`state.subscriptions`, at most `N`),
+the keys past the table length are removed.  A subscription that is outside the table at that
+moment (being primed or reported on) is not written. -/
+def State.persist (s : State) : State := { s with kv := (s.subs.take s.n).map Sub.toRec }
+
+/-- one iteration of the loop of `load_persist`: `self.add(now, …)`, then
+`rctx.next_reported_at = Instant::MAX; rctx.set_keep()` and the drop of the context
+(`report_complete` with `keep`, the `reporting` slot is empty): the subscription enters the table
+not primed, with the watermarks `add` snapshots.  `None` from `add` (table full) drops the record. -/
+def State.resumeOne (s : State) (r : Rec) (_now evwm : Nat) : State :=
+  if s.count ≥ s.n then s
+  else
+    let sub : Sub := { id := s.nextSubId, fab := r.fab, peer := r.peer, minInt := r.minInt,
+                       maxInt := r.maxInt, reportedAt := IMAX, retryAt := 0, fail := 0,
+                       seenAttr := s.changed.watermark, seenEv := evwm }
+    { s with count := s.count + 1, nextSubId := s.nextSubId + 1, subs := s.subs ++ [sub] }
+
+/-- a restart of the device: a fresh `InteractionModelState` (empty table, change ids from 1, every
+report context is gone with its task) and `load_persist` over the records `0 .. N` of the same
+store.  The ghost log starts again (the resumed subscriptions are not primed: their next report
+carries everything), the ghost boot counter is incremented. -/
+def State.restart (s : State) (now evwm : Nat) : State :=
+  (s.kv.take s.n).foldl (fun st r => st.resumeOne r now evwm)
+    { State.new s.hz s.n with kv := s.kv, epoch := s.epoch + 1 }
+
 /-- the operations on the table (what the responder tasks, the reporter task and the application do
 to it between two await points) -/
 inductive Op
@@ -394,6 +435,8 @@ inductive Op
   | fin (id : Nat) (f : Fin)
   | remove (p : Sub → Bool)
   | purge
+  | persist
+  | restart (now evwm : Nat)
 
 def State.step (s : State) : Op → State
   | .change p => s.change p
@@ -402,6 +445,8 @@ def State.step (s : State) : Op → State
   | .fin id f => (s.fin id f).1
   | .remove p => (s.remove p).1
   | .purge => s.purge
+  | .persist => s.persist
+  | .restart now ev => s.restart now ev
 
 def State.run (s : State) : List Op → State
   | [] => s
